@@ -332,10 +332,19 @@ class R:
                     f"fn {h['name']}(&self, ctx: {self.sv}::types::ReplyCtx<{Q}>, reply: Reply) -> Result<Response<{M}>, {p['error']}> {{",
                     f"    echo_mut(\"{h['hid']}\", ctx.deps, &ctx.env, None, None, vec![(\"reply\", svmon::serde_json::to_string(&reply).unwrap())])",
                     "}"]
-        extra = ""
+        args_ = []
         if h.get("handlers"):
-            extra += ", handlers=[" + ", ".join(h["handlers"]) + "]"
-        extra += f", reply_on={h['reply_on']}"
+            k = h.get("handlers_split")
+            if k:
+                # the list may be given in several `handlers=[..]` arguments: they add up
+                args_ += ["handlers=[" + ", ".join(h["handlers"][:k]) + "]", "handlers=[" + ", ".join(h["handlers"][k:]) + "]"]
+            else:
+                args_.append("handlers=[" + ", ".join(h["handlers"]) + "]")
+        if h.get("reply_on_first"):
+            args_.insert(0, f"reply_on={h['reply_on']}")
+        else:
+            args_.append(f"reply_on={h['reply_on']}")
+        extra = "".join(", " + x for x in args_)
         lines = [h.get("msg_attr_text") or f"#[sv::msg(reply{extra})]"]
         params = [h.get("self_text", "&self"), f"{h.get('ctx_attr', '')}ctx: ReplyCtx<{Q}>"]
         echo = []
